@@ -135,4 +135,5 @@ SUBS = [
         need={"fault-inside-valid-frame": 1, "empty-read-inside-valid-frame": 1, "damaged": 1, "decoy:reserved-bits": 1, "decoy:lying-length": 1, "decoy:nested-ubx": 1, "delivered": 10},
         sample=_sample,
     ),
+    __import__("pv.fuzz.campaign", fromlist=["make"]).make("C01", ("C01",)),
 ]
